@@ -179,8 +179,18 @@ def apply_mutation(name, cls, G, kw, pick):
         ins = [e for e in G.in_edges(v) if e[0] != e[1]]  # a self-loop adds to both sides of the balance
         if not ins:
             return None
-        e = ins[0]
-        G.edges[e]["flow"] = G.edges[e]["flow"] + 1
+        if pick[2] % 3 == 0 and cls in ("kFlowDecomp", "MinFlowDecomp") and all(isinstance(G.edges[e_].get("flow", 0), int) for e_ in G.edges()):
+            # large integer data: an imbalance of one unit stays an imbalance
+            for e_ in G.edges():
+                if "flow" in G.edges[e_]:
+                    G.edges[e_]["flow"] = G.edges[e_]["flow"] * 10 ** 9
+        if pick[1] % 3 == 0:
+            # one side of the balance sums to zero (zero is a legal weight): still not a flow
+            for e in ins:
+                G.edges[e]["flow"] = type(G.edges[e]["flow"])(0)
+        else:
+            e = ins[0]
+            G.edges[e]["flow"] = G.edges[e]["flow"] + 1
         if not _not_conserving(G, kw):
             return None
         return G, kw
